@@ -16,8 +16,10 @@
              double (e = 1015) and, when WithInf, +inf (exp() overflow for a note offset of 32767)
              with inf / 2 = inf.  P: every loop iteration changes the magnitude (e is the variant
              function; an iteration that leaves hertz unchanged repeats forever), block <= 7,
-             the final F-number fits 11 bits.  InfGuard = TRUE is the repaired machine (a
-             non-finite hertz returns before the loops).
+             the final F-number fits 11 bits.  InfGuard = TRUE is the guarded machine
+             (`if(!(hertz <= 131071.0)) hertz = 131071.0;`: everything above class CapE, +inf
+             included, enters the loops as class CapE); InfGuard = FALSE is the machine without
+             that line, which never leaves the first loop for +inf.
 
    Part = 3  RE-PITCH RULE.  One MIDI channel, keys Keys, the sustain and sostenuto pedals and pitch
              bends; users carry the hold set sus of OPNMIDIplay::OpnChannel::LocationData.
@@ -69,11 +71,12 @@ Half(h) == IF h.k = "inf" THEN Inf ELSE IF h.e = 0 THEN h ELSE Fin(h.e - 1, h.hi
 Ge1(h) == h.k = "inf" \/ h.e >= 1                      \* hertz >= 1023.75
 Ge2(h) == h.k = "inf" \/ h.e >= 2 \/ (h.e = 1 /\ h.hi)  \* hertz >= 2036.75
 MoCap == 2000
+CapE == 16              \* 131071 * 321.88557 = 1023.75 * 2^15.33 (OPNA: 2^15.27): 16 halvings, lower part of the class
 Init2 == s \in { [pc |-> "l1", h |-> h, oct |-> 0, mo |-> 0] : h \in Classes }
 Next2 ==
   /\ hist' = hist
   /\ CASE s.pc = "l1" ->
-            IF InfGuard /\ s.h.k = "inf" THEN s' = [s EXCEPT !.pc = "done"] /\ bad' = bad
+            IF InfGuard /\ s.oct = 0 /\ (s.h.k = "inf" \/ s.h.e > CapE) THEN s' = [s EXCEPT !.h = Fin(CapE, FALSE)] /\ bad' = bad
             ELSE IF Ge1(s.h) /\ s.oct < 7
             THEN /\ s' = [s EXCEPT !.h = Half(s.h), !.oct = s.oct + 1]
                  /\ bad' = bad \cup (IF Half(s.h) = s.h THEN {"no-variant-octave-loop"} ELSE {})
